@@ -47,20 +47,30 @@ ASSUMPTIONS = ["N >= 2 (a one-level file gives K = 1: known edge, outside the th
 
 # ------------------------------------------------------------------------------------ recording arrays
 class Rec(np.ndarray):
-    """ndarray that logs every index tuple it is read with"""
+    """ndarray that logs every element read as a full index tuple of the ORIGINAL array, however the code spells
+    the access: F[k, j, i], F[k][j, i], F[k][j][i], (F[k - 1], F[k]) first and [j, i] later ...  A partial
+    index (fewer indices than dimensions) only produces a view that remembers its leading indices."""
 
-    def __new__(cls, a, log):
+    def __new__(cls, a, log, prefix=()):
         obj = np.asarray(a).view(cls)
         obj._log = log
+        obj._prefix = tuple(prefix)
         return obj
 
     def __array_finalize__(self, obj):
         self._log = getattr(obj, "_log", None)
+        self._prefix = getattr(obj, "_prefix", ())
 
     def __getitem__(self, idx):
-        if self._log is not None:
-            self._log.append(idx)
-        return np.asarray(self).__getitem__(idx)
+        base = np.asarray(self)
+        if self._log is None:
+            return base.__getitem__(idx)
+        tup = idx if isinstance(idx, tuple) else (idx,)
+        plain = all(not isinstance(x, slice) and x is not Ellipsis and x is not None for x in tup)
+        if plain and len(tup) < base.ndim and all(np.ndim(x) == 0 for x in tup):
+            return Rec(base.__getitem__(idx), self._log, self._prefix + tuple(tup))  # partial: remember, log later
+        self._log.append(self._prefix + tuple(tup))
+        return base.__getitem__(idx)
 
 
 def triples_of(log):
